@@ -273,6 +273,17 @@ def exh(ctx, fams, flavours):
                     # propagate: some FOUND must be dominated by the recursive call
                     if not any(cfg.dominates(rb, fb) for fb, k, t in K.founds if fb != rb):
                         why.append('result of the recursive call is not propagated to the caller')
+                    # ... and on the right outcome: FOUND behind the descent is confined to its success, a failed descent goes on iterating
+                    from .core import outcome_edges
+                    te, fe = cfg.bool_edges(rt['dst']['l'], rt['target'])
+                    if te is None:
+                        te, fe = outcome_edges(F, b, rb)
+                    if te is not None:
+                        for fb, k, t in K.founds:
+                            if fb != rb and cfg.dominates(rb, fb) and k in ('true', 'some') and not cfg.edge_dominates(te[0], te[1], fb):
+                                why.append('FOUND@bb%d behind the recursive call is not confined to its success outcome' % fb)
+                        if fe is not None and any(k in ('true', 'some') and cfg.path_exists(fe[1], fb, avoiding={K.sites['NEXT']}) for fb, k, t in K.founds):
+                            why.append('a failed descent can reach FOUND without examining another edge')
         else:
             # iterative kernels: TAKE must sit in an outer loop containing the edge loop
             tk = K.sites.get('TAKE')
